@@ -16,9 +16,9 @@ Definition w_sec : list byte := mk_file (le_bytes 4 2 ++ le_bytes 4 4294967280 +
 Definition w_slen : list byte := mk_file (le_bytes 4 2 ++ le_bytes 4 44 ++ le_bytes 4 4 ++ [255; 255; 255; 255]) 0 0 1.
 
 Lemma w_sec_crashes c : fx_sec c = false -> deserializeC c w_sec = LCrash.
-Proof. destruct c as [a b c0 d e f g h i]; simpl; intros ->; destruct b; vm_compute; reflexivity. Qed.
+Proof. destruct c as [a b c0 d e f g h i]; intros H; simpl in H; subst; destruct b; vm_compute; reflexivity. Qed.
 Lemma w_slen_crashes c : fx_slen c = false -> deserializeC c w_slen = LCrash.
-Proof. destruct c as [a b c0 d e f g h i]; simpl; intros ->; destruct a; vm_compute; reflexivity. Qed.
+Proof. destruct c as [a b c0 d e f g h i]; intros H; simpl in H; subst; destruct a; vm_compute; reflexivity. Qed.
 Lemma w_sec_ok : bytes_ok w_sec /\ length w_sec = 44%nat.
 Proof. split; [apply bytes_okb_spec|]; vm_compute; reflexivity. Qed.
 Lemma w_slen_ok : bytes_ok w_slen /\ length w_slen = 48%nat.
